@@ -219,10 +219,15 @@ def run_case(desc):
             if b - a >= 2 and 0 < len(r[0]) < b - a:
                 stats["mixed_chunks"] += 1
             try:
+                # the chunk is handed over in a buffer that the caller re-uses afterwards: nothing of the committed state may
+                # live in the caller's memory
+                buf = np.array(X[a:b], copy=True)
                 if is_bm:
-                    streams.update_bm(obj, X[a:b], np.array(r[0], dtype=int), U[a:b])
+                    streams.update_bm(obj, buf, np.array(r[0], dtype=int), U[a:b])
                 else:
-                    streams.update_strategy(obj, X[a:b], np.array(r[0], dtype=int), r[1])
+                    streams.update_strategy(obj, buf, np.array(r[0], dtype=int), r[1])
+                if extra:        # (only in the twin run: the plain run is the reference in which nothing is overwritten)
+                    buf[...] = 12345.0
             except Exception as ex:   # update failures are judged by C10; the history simply ends here
                 stats["update_raised"] = stats.get("update_raised", 0) + 1
                 break
